@@ -10,7 +10,7 @@ for d in sorted(glob.glob("/verif/seeded/*")):
     r = res.get(sid, {})
     ops = sorted({v.split("-", 2)[-1].rsplit("-", 1)[0] for v in r.get("violations", [])})
     seeds = r.get("per_verif_seed", {})
-    verdict = "caught" if r.get("caught") else ("not caught — outside the domain" if m.get("out_of_domain") else "MISSED")
+    verdict = "caught" if r.get("caught") else ("not caught — outside the domain" if m.get("out_of_domain") else ("harmless since fix 0e78524 (caught before)" if m.get("neutralised_by_fix") else "MISSED"))
     if seeds:
         verdict += " (" + ",".join(k for k, v in sorted(seeds.items()) if v) + ")"
     summ = m["summary"].replace("|", "/").replace("\n", " ")[:150]
